@@ -79,6 +79,38 @@ def c01(run: Any) -> list[Finding]:
     return out
 
 
+def c01_composed(run: Any) -> list[Finding]:
+    """C01 judged by the real state layer (states.setup.get_states over the real pool backends) instead of the model."""
+    out: list[Finding] = []
+    for ev in _starts(run):
+        why = ev.get("real_missing")
+        if why is None:
+            continue
+        # excused exactly as in c01: a producer of a needed state (or the creation) ended before without passing
+        excused = False
+        for need in ev["needs"]:
+            key = (need["object"], need["state"])
+            for prev in run.trace[: ev["idx"]]:
+                if prev["kind"] != "start":
+                    continue
+                produces = key in prev["sets"]
+                creates = prev["prefix"].startswith("0") or bool(prev.get("object_root"))
+                same_object = any(k[0].split("|")[0].split("_")[-1] == need["object"].split("|")[0].split("_")[-1] for k in prev["sets"])
+                st = status_at(prev, ev["idx"])
+                if (produces or (creates and same_object)) and st not in trav.SAVING and st != "RUNNING":
+                    excused = True
+        if excused:
+            continue
+        model = "the store model agrees" if ev["missing"] and not any("real_layer" in m for m in ev["missing"]) else "the store model found the states"
+        known = c01(run)
+        if known and all("cause=" in k[0] for k in known) and ev["missing"] and not any("real_layer" in m for m in ev["missing"]):
+            # same event as the model-based monitor: keep its cause class so that known findings match
+            out += [k for k in known if ev["worker"] in k[1]][:1] or known[:1]
+            continue
+        out.append(("C01 composed: the real state layer cannot fetch a required state", f"{ev['worker']} started {_short(ev['bridged'])} but the real get_states aborts: {why[:160]} ({model})", {}))
+    return out
+
+
 # ---------------------------------------------------------------------------
 # C02
 
